@@ -163,6 +163,10 @@ class _SvcMixin:
             _event("ctor-begin", label=label)
             time.sleep(slow)  # a constructor that takes its time (I/O, remote calls)
         self.label = label
+        broken = kwargs.pop("broken", None)
+        if broken:
+            # a constructor that fails on its (well-formed) arguments, e.g. a value of the wrong type
+            raise {"TypeError": TypeError, "KeyError": KeyError, "ValueError": ValueError}[broken]("service %s cannot be built from these settings" % label)
         self.fail_after = kwargs.pop("fail_after", None)
         self.fail_how = kwargs.pop("fail_how", "raise")
         self.period = kwargs.pop("period", 0.05)
@@ -232,6 +236,13 @@ class VSvcEmpty(_trio_service(Pool)):
 @service(flavour=trio)
 class VSvcCtrl(_trio_service(Controller)):
     def __init__(self, target, label="ctrl", **kwargs):
+        super().__init__(target)
+        self._setup(label, kwargs)
+
+
+@service(flavour=trio)
+class VSvcTrioDeco(_trio_service(PoolDecorator)):
+    def __init__(self, target, label="tdeco", **kwargs):
         super().__init__(target)
         self._setup(label, kwargs)
 
